@@ -228,9 +228,6 @@ theorem rowEntries_plain (sch : Schema) (hb : sch.ctxBasic = []) (hm : sch.ctxMa
 
 /-! ### round trip of a record, field by field -/
 
-/-- first segment of a dotted header -/
-def headSeg (k : Str) : Str := k.takeWhile (· ≠ '.')
-
 theorem headSeg_simple {n : Str} (h : simpleName n = true) : headSeg n = n := by
   unfold headSeg
   apply takeWhile_all
